@@ -59,6 +59,10 @@ inductive NodeOp where
   | checkGroupCommitConsistent
   | setMaxApplyUnpersistedLogLimit (x : Nat)
   | setMaxCommittedSizePerReady (x : Nat)
+  /-- `RawNode::on_entries_fetched` raw_node.rs:433 for a context `GetEntriesFor::SendAppend { to, term, aggressively }`
+  (the asynchronous log fetch: `Storage::entries` answered `LogTemporarilyUnavailable` for a `send_append`, the
+  application fetched the entries and calls back) -/
+  | onEntriesFetched (to term : Nat) (aggressively : Bool)
 
 /-- what a call returns to the application -/
 inductive OpRes where
@@ -206,17 +210,15 @@ def applyOp (st : NState) : NodeOp → Out
     | .panic s => .panic s
   | .setMaxApplyUnpersistedLogLimit x => .ok (.ok, { st with raft := st.raft.setMaxApplyUnpersistedLogLimit x })
   | .setMaxCommittedSizePerReady x => .ok (.ok, { st with raft := st.raft.setMaxCommittedSizePerReady x })
+  -- a stale context — term or role changed, peer removed — is ignored
+  | .onEntriesFetched to term aggressively =>
+    if st.raft.term ≠ term ∨ st.raft.state ≠ .leader then .ok (.ok, st)
+    else if (st.raft.prs.get to).isNone then .ok (.ok, st)
+    else okRes st (if aggressively then st.raft.sendAppendAggressively to else st.raft.sendAppend to)
 
-/-- `RawNode::on_entries_fetched` raw_node.rs:433 for a context `GetEntriesFor::SendAppend { to, term, aggressively }`
-(the asynchronous log fetch: `Storage::entries` answered `LogTemporarilyUnavailable` for a `send_append`, the application
-fetched the entries and calls back).  A stale context — term or role changed, peer removed — is ignored.  Executed by the
-driver next to the `NodeOp`s; it is not (yet) a constructor of `NodeOp`, so the ClusterSem theorems do not cover
-applications that use the asynchronous fetch. -/
+/-- `RawNode::on_entries_fetched` for a `GetEntriesFor::SendAppend` context: the `NodeOp.onEntriesFetched` call -/
 def onEntriesFetched (st : NState) (to term : Nat) (aggressively : Bool) : Out :=
-  let r := st.raft
-  if r.term ≠ term ∨ r.state ≠ .leader then .ok (.ok, st)
-  else if (r.prs.get to).isNone then .ok (.ok, st)
-  else okRes st (if aggressively then r.sendAppendAggressively to else r.sendAppend to)
+  applyOp st (.onEntriesFetched to term aggressively)
 
 /-- a call with the random draw the implementation used for it (`reset_randomized_election_timeout`) -/
 def call (st : NState) (rnd : Option Nat) (op : NodeOp) : Out :=
